@@ -212,7 +212,7 @@ struct HMt : Harness {
     Hasher h; h.u64(sr.hist_hash);
     if (rc0 != SIM_OK || rc1 != SIM_OK) { o.fail("abort", std::string(kern_name[c.kern]) + ": library aborted on a valid call (" + (rc0 ? "reference" : "multithreaded") + ")"); o.hash = h.h; return o; }
     if (unj) o.fail("unjoined-thread", std::string(kern_name[c.kern]) + ": worker thread not joined when the call returned");
-    if (sr.races) o.fail(race_class(), std::string(kern_name[c.kern]) + ": workers overlap: " + races_text());
+    if (sr.races && races_are_verdicts()) o.fail(race_class(), std::string(kern_name[c.kern]) + ": workers overlap: " + races_text());
 
     // compare with the sequential definition
     auto cmpv = [&](const std::vector<double> &a, const std::vector<double> &b, const char *what) {
